@@ -216,6 +216,12 @@ MUTANTS: List[Tuple[str, List[Tuple[str, str, str]], List[Tuple[str, str]]]] = [
     ('f70-source-unavailable', [(V, "        try:\n            line_number = inspect.getsourcelines(node)[-1]\n        except (OSError, TypeError):\n            # The source is not available (a class created dynamically, a byte-code only module)\n            return f'{file_path}.py'\n", "        line_number = inspect.getsourcelines(node)[-1]\n")], [('C20', 'VW-7')]),
     ('f71-build-dag-none', [(B, "    builder._check_base_class(output_node)\n", "")], [('C16', 'VL-8')]),
     ('f72-registry-overwrite', [(N, "    while registry_name in globals():\n        serial += 1\n        registry_name = f'{class_name}_{serial}'\n", "")], [('C07', 'BN-4'), ('C08', 'BN-4'), ('C17', 'BN-4')]),
+    ('f73-waiter-sets-event', [(M, "            if is_executor:\n                self.__unlock_execution_lock(node_id)\n\n            await self.__unlock_descendants(node_id)", "            self.__unlock_execution_lock(node_id)\n\n            await self.__unlock_descendants(node_id)")], [('C04', 'ON-7'), ('C14', 'ON-7'), ('C03', 'ON-7')]),
+    ('f74-error-tested-by-truthiness', [(M, "                    self._get_first_error_in_tasks(self._coro_tasks) is not None\n", "                    bool(self._get_first_error_in_tasks(self._coro_tasks))\n")], [('C02', 'ER-9'), ('C05', 'ER-9')]),
+    ('f74-result-error-tested-by-truthiness', [(M, "        if error is not None:\n            raise error\n", "        if error:\n            raise error\n")], [('C05', 'ER-9')]),
+    ('f75-format-from-suffix', [(F, "        serializer = serializer_factory.from_extension(glob[0].name.rsplit('.', 1)[-1])\n", "        serializer = serializer_factory.from_extension(glob[0].suffix[1:])\n")], [('C18', 'FS-7')]),
+    ('f76-context-outside-try', [(C, "        try:\n            ctx = dag_ctx.create_context_from_chart(\n                chart=self,\n                pipeline_id=pipeline_id,\n                input_kwargs=input_kwargs,\n                meta=meta if meta is not None else {},\n            )\n\n        except Exception as ex:\n            # The artifact store or an event manager of the chart could not be created: there is nobody to notify\n            return PipelineResult(pipeline_id=pipeline_id, value=None, error=ex)\n",
+                                  "        ctx = dag_ctx.create_context_from_chart(\n            chart=self,\n            pipeline_id=pipeline_id,\n            input_kwargs=input_kwargs,\n            meta=meta if meta is not None else {},\n        )\n")], [('C05', 'ER-2')]),
 ]
 
 ALL_PROPS = [f'C{n:02d}' for n in range(2, 21)]
